@@ -322,7 +322,12 @@ int websocket_compress(const struct websocket *s, uint8_t *dest, uint8_t *src, s
 		return -1;
 	}
 	have = length * 2 - strm->avail_out;
-	if (have < 4) log_err("Deflate not enough space!");
+	if ((strm->avail_out == 0) || (have < 4)) {
+		/* The output did not fit into dest. What deflate holds back is lost: start over with the next message. */
+		log_err("Deflate not enough space!");
+		deflateReset(strm);
+		return -1;
+	}
 
 	if (dest[have - 1] != 0xff) log_err("Error remove tail deflate!");
 	if (dest[have - 2] != 0xff) log_err("Error remove tail deflate!");
